@@ -5,7 +5,7 @@
    the two halves are put together at the end of this file. *)
 From Coq Require Import ZArith QArith List Bool Lia ZifyBool Setoid.
 Require Import QV.C17.Model QV.C17.Spec QV.C17.Proofs QV.C17.ProofsVM QV.C17.SimDefs QV.C17.ProofsTr3 QV.C17.ProofsSim4 QV.C17.ProofsSim6
-               QV.C17.ProofsBuild QV.C17.ProofsGuard QV.C17.ProofsStair QV.C17.ProofsTrTotal
+               QV.C17.ProofsBuild QV.C17.ProofsGuard QV.C17.ProofsStair QV.C17.ProofsTrTotal QV.C17.ProofsLabels
                QV.C17.GenLib QV.C17.Gen_linspace_obj QV.C17.GenObjEq QV.C17.Gen_linspace_tr QV.C17.GenTrEq.
 Import ListNotations.
 Local Open Scope Z_scope.
@@ -120,4 +120,33 @@ Proof.
   intros C s prog HW EB. destruct (translator_returns C s HW) as (prog' & cs & EB' & ET).
   assert (prog' = prog) by congruence. subst prog'. exists cs. split; [exact ET|].
   rewrite gen_to_increment_commands_eq, ET. reflexivity.
+Qed.
+
+(* TOTAL correctness on code translated from the source only (builder, to_increment_commands, LinSpaceVM.__init__ / set_commands / run;
+   by hand: `drive`, `to_src`): for every named source whose positional reading is well formed and free of key collisions, either the
+   builder returns no program (nothing to play), or every stage returns -- in particular set_commands, whose assertion on repeated
+   labels cannot fire (ProofsLabels.translate_labels_nodup) -- and run() halts for every fuel above a bound with ONE history, the
+   staircase of the source. *)
+Theorem source_pipeline_total : forall C ns,
+  src_wf C (to_src [] ns) = true -> guard_C17_key_collision (to_src [] ns) = true ->
+  (exists b, drive ns gen_builder_init = Ok b /\ gen_to_program b = Ok None) \/
+  exists b prog gcs g0 n h t,
+    drive ns gen_builder_init = Ok b /\ gen_to_program b = Ok (Some prog) /\
+    gen_to_increment_commands prog = Ok gcs /\ gen_set_commands (gen_vm_init C) gcs = Ok g0 /\
+    (forall fuel, (n <= fuel)%nat -> exists g', gen_run fuel g0 = Some (Ok g') /\ gvm_history g' = h /\ gvm_time g' = t) /\
+    plays h (fst (staircase (to_src [] ns))) = true /\ Qeq_bool t (snd (staircase (to_src [] ns))) = true.
+Proof.
+  intros C ns HW HK. pose proof (builder_program_eq ns) as H.
+  destruct (build_program (to_src [] ns)) as [nodes|e] eqn:Eb; [|contradiction].
+  destruct H as (b & Hd & Hp). destruct nodes as [|n0 nodes]; [left; exists b; split; assumption|right].
+  destruct (source_translator_returns C _ _ HW Eb) as (cs & ET & EG).
+  destruct (pipeline_runs_if_translated C _ _ cs HW HK Eb ET) as (n & h & t & Hrun & Hpl).
+  destruct (gen_set_commands_ok C cs (translate_labels_nodup _ _ ET)) as [g0 Hset].
+  exists b, (map embed_node (n0 :: nodes)), (map embed cs), g0, n, h, t.
+  split; [exact Hd|]. split; [exact Hp|]. split; [exact EG|]. split; [rewrite gen_vm_init_eq; exact Hset|]. split; [|exact Hpl].
+  intros fuel Hle. specialize (Hrun fuel Hle). unfold run_vm_n in Hrun.
+  pose proof (gen_run_refines cs fuel _ _ (gen_set_commands_init C cs g0 Hset)) as Hr.
+  destruct (vm_run_n fuel cs (vm0 C)) as [s'|s'|e']; cbn [vm_result] in Hrun; try discriminate Hrun.
+  cbn [run_refines] in Hr. destruct Hr as (g' & Hg' & R). exists g'. rewrite gen_run_eq. split; [exact Hg'|].
+  rewrite (R_hist _ _ _ R), (R_time _ _ _ R). inversion Hrun; subst. split; reflexivity.
 Qed.
